@@ -94,6 +94,20 @@ def wrappers_of(repo, ci):
     return sorted(out)
 
 
+def bool_options(fn):
+    """(name, default) of the parameters of a function whose default is the literal True/False"""
+    a = fn.args
+    pos = a.posonlyargs + a.args
+    out = []
+    for arg, d in zip(pos[len(pos) - len(a.defaults):], a.defaults):
+        if isinstance(d, ast.Constant) and isinstance(d.value, bool):
+            out.append((arg.arg, d.value))
+    for arg, d in zip(a.kwonlyargs, a.kw_defaults):
+        if d is not None and isinstance(d, ast.Constant) and isinstance(d.value, bool):
+            out.append((arg.arg, d.value))
+    return out
+
+
 def assigns_attr(repo, ci, attr):
     """does any __init__ along the MRO assign self.<attr> ?"""
     for k in ci.mro:
@@ -199,6 +213,23 @@ def check(run, repo):
             av = {k: v for k, v in avail.items() if k in params(fn)[0] or k in ('T', 'P')}
             run_pair(run, I, sp, 'StatMech' + ('[S_elements]' if sel else ''), wname, tname, q, owner, fn, av,
                      unit_variants(rkeys, thorough and sel is None, per_mass=True), molw, counter)
+    # the same species with references attached: every boolean option the wrapper shares with its twin is flipped,
+    # one at a time, on both - an option that is consumed on the way (use_references, verbose, ...) shows
+    refs = opaque_obj(I, 'refs', {m: ('descriptors', 'T') for m in methods})
+    refs.attrs['descriptor'] = 'elements'
+    sp_ref = Obj('sp', ci, attrs=dict(attrs, references=refs))
+    sel_opaque(sp_ref)
+    n_flips = 0
+    for wname, tname, q, owner, fn in wrappers_of(repo, ci):
+        tfn = repo.find_method(ci, tname)[1]
+        for opt, dflt in bool_options(fn):
+            if opt not in params(tfn)[0] or opt == 'verbose':
+                continue
+            n_flips += 1
+            av = {'T': D.sym('T'), 'P': D.sym('P'), opt: not dflt}
+            run_pair(run, I, sp_ref, 'StatMech[references,%s=%s]' % (opt, not dflt), wname, tname, q, owner, fn, av,
+                     ['J/mol/K'], molw, counter)
+    run.floor('StatMech wrapper options flipped', n_flips, 20)
 
     # ---- (c) empirical species --------------------------------------------------
     for cname, qual in (('Nasa', 'pmutt.empirical.nasa.Nasa'), ('Nasa9', 'pmutt.empirical.nasa.Nasa9'),
